@@ -551,7 +551,18 @@ class Exec:
     def st_FunctionDef(self, st):
         fr = self.frames[-1]
         info = _nested_info(fr.finfo, st)
-        self.set_env(fr.env, st.name, Closure(info, fr.env))
+        val = Closure(info, fr.env)
+        for d in reversed(st.decorator_list):
+            if isinstance(d, ast.Name) and d.id == "property":
+                val = PropObj(fget=val)
+            elif isinstance(d, ast.Attribute) and d.attr == "setter":
+                base = self.eval(d.value)
+                if not isinstance(base, PropObj):
+                    raise Unsupported("setter decorator on non-property @%d" % st.lineno)
+                val = PropObj(fget=base.fget, fset=val)
+            else:
+                raise Unsupported("decorator @%d" % st.lineno)
+        self.set_env(fr.env, st.name, val)
 
     def st_For(self, st):
         from . import loops
@@ -609,6 +620,23 @@ class Exec:
             hook = self.registry.models.setattr_hook(self, obj, name, v, line)
             if hook:
                 return
+            cls = obj.cls
+            if hasattr(cls, "lookup") and name not in obj.fields:
+                st_ = cls.lookup_setter(name)
+                if st_ is not None:
+                    return self.call_function(st_, [v], {}, bound=obj, line=line)
+                r = cls.lookup(name)
+                if r is not None and r[0] == "attr" and isinstance(r[2], ast.Call):
+                    sub = Frame(None, {}, r[1].module)
+                    self.frames.append(sub)
+                    try:
+                        pv = self.eval(r[2])
+                    finally:
+                        self.frames.pop()
+                    if isinstance(pv, PropObj):
+                        if pv.fset is None:
+                            raise RaiseSignal("AttributeError", line=line)
+                        return self.call(pv.fset, [obj, v], {}, line)
             if self.guard is not True:
                 old = obj.fields.get(name, _MISSING)
                 if old is not v:
@@ -713,6 +741,8 @@ class Exec:
                     continue
                 if self.branch(c):
                     return k
+        if not for_store:
+            return _NOKEY
         raise Unsupported("symbolic dict key outside the known key universe")
 
     def concretize_index(self, idx, n, line):
@@ -854,6 +884,8 @@ class Exec:
                         self.frames.pop()
                     if isinstance(v, PropertyVal):
                         return v.get(self, obj, line)
+                    if isinstance(v, PropObj):
+                        return self.call(v.fget, [obj], {}, line)
                     return v
             raise Unsupported("attribute %s of %r @%s" % (name, obj, line))
         if isinstance(obj, ClassRef):
@@ -960,7 +992,8 @@ class Exec:
         return self.binop(op, a, b, e.lineno)
 
     def binop(self, op, a, b, line=None):
-        if isinstance(a, SymArr) or isinstance(b, SymArr):
+        if isinstance(a, SymArr) or isinstance(b, SymArr) or type(a).__name__ == "MaskedRef" \
+                or type(b).__name__ == "MaskedRef":
             return self.registry.models.array_binop(self, op, a, b)
         if isinstance(a, (list, tuple)) and op == "+" and isinstance(b, type(a)):
             return a + b
@@ -1016,6 +1049,10 @@ class Exec:
             right = self.eval(right_e)
             res.append(self.compare_op(op, left, right, e.lineno))
             left = right
+        if len(res) == 1:
+            return res[0]
+        if any(isinstance(r, SymArr) for r in res):
+            raise Unsupported("chained comparison of arrays @%d" % e.lineno)
         return band(*res)
 
     def compare_op(self, op, a, b, line=None):
@@ -1156,7 +1193,9 @@ class Exec:
 
     def call_function(self, finfo, args, kwargs, bound=None, line=None):
         c = self.registry.contract_for(finfo.qualname)
-        current = self.frames[-1].finfo.qualname if self.frames and self.frames[-1].finfo else None
+        if c is not None and c.dispatch is not None:
+            env0 = self.bind_args(finfo, args, dict(kwargs), bound)
+            c = self.registry.contract_for(finfo.qualname + c.dispatch(env0)) or c
         if c is not None and not c.inline and finfo.qualname != self.registry.under_proof:
             from . import spec
             return spec.apply_contract(self, c, finfo, args, kwargs, bound, line)
@@ -1183,6 +1222,7 @@ class Exec:
 
 
 _MISSING = object()
+_NOKEY = object()        # a symbolic key proved different from every key that can be present
 
 
 class Closure:
@@ -1208,6 +1248,14 @@ class LambdaVal:
             return ex.eval(self.node.body)
         finally:
             ex.frames.pop()
+
+
+class PropObj:
+    """a `property` object built by a factory in utils/types.py (getter/setter closures)"""
+
+    def __init__(self, fget=None, fset=None):
+        self.fget = fget
+        self.fset = fset
 
 
 class PropertyVal:
